@@ -345,3 +345,51 @@ def _(v):
     w = want(y, sR, cR)
     v.prove("both_bound.no_free_parameters", list(o.param_names) == [])
     v.prove("both_bound.rhs", SP.conj([v.eq(e, w[s]) for e, s in zip(o.exprs, "ABC")]))
+
+
+@harness("C04", "get_odesys.unit_registry.named_and_numeric_constants", functions=[ODE + ":get_odesys", ODE + ":get_odesys.<locals>.dydt", ODE + ":get_odesys.<locals>.reaction_rates",
+                                                                                  "chempy.util._expr:Expr.dedimensionalisation"], kind="shape-bounded", div_mode="assume", samples=0, max_paths=400)
+def _(v):
+    """with a unit registry every reaction keeps ITS OWN rate expression (named constants stay parameters, numeric ones are expressed in registry
+    units); generic registry of symbolic scale (abstraction 5.1)"""
+    from chempy.kinetics.ode import get_odesys
+    from chempy.kinetics.rates import MassAction
+    from chempy.chemistry import Reaction, Substance
+    from chempy.reactionsystem import ReactionSystem
+    from chempy import units as CU
+    from pyvc.qmodel import si_value, std_table, Quantity
+    from contracts.C10 import _registry, _unit_in_registry
+    t = std_table()
+    reg = _registry(v, t)
+    v.contract(CU.default_unit_in_registry, "default_unit_in_registry", None, lambda v_, value, registry: _unit_in_registry(t, registry, value) if isinstance(value, Quantity) else 1)
+    v.contract(CU.unitless_in_registry, "unitless_in_registry", None,
+               lambda v_, value, registry: v_.interp.call(CU.to_unitless, (value, _unit_in_registry(t, registry, value))) if isinstance(value, Quantity) else value)
+    ku = t.generic("ku", (0, 0, -1, 0, 0, 0, 0))
+    k2, k3 = v.real("k2", lo=1e-9, hi=1e9), v.real("k3", lo=1e-9, hi=1e9)
+    rsys = ReactionSystem([Reaction({"A": 1}, {"B": 1}, "k1", checks=()), Reaction({"B": 1}, {"C": 1}, MassAction([k2 * ku]), checks=()),
+                           Reaction({"C": 1}, {"D": 1}, "k4", checks=()), Reaction({"D": 1}, {"A": 1}, MassAction([k3 * ku]), checks=())],
+                          [Substance(s) for s in "ABCD"], checks=())
+    reg_t = si_value(reg["time"])
+    bound = v.real("k4_bound_by_substitution", lo=0, hi=9)
+    for label, kw, names in (("names_free", dict(include_params=False), ["k1", "k4"]),
+                             ("one_name_bound", dict(include_params=False, substitutions={"k4": bound}), ["k1"])):
+        odesys, extra = v.call(get_odesys, rsys, unit_registry=reg, SymbolicSys=FakeSymbolicSys, **kw)
+        y = dict(zip(odesys.names, odesys.dep))
+        p = dict(zip(odesys.param_names, odesys.params))
+        v.prove(label + ".named_constants_are_the_parameters", list(odesys.param_names) == names)
+        if list(odesys.param_names) != names:
+            continue
+        p.setdefault("k4", bound)
+        r = [p["k1"] * y["A"], None, p["k4"] * y["C"], None]
+        want = {"A": (-r[0], +1, k3, "D"), "B": (r[0], -1, k2, "B"), "C": (-r[2], +1, k2, "B"), "D": (r[2], -1, k3, "D")}
+        for e, s in zip(odesys.exprs, "ABCD"):
+            named, sign, k, src = want[s]
+            # numeric constants: k [1/s] = k_reg [1/registry time]  <=>  k_reg = k * si(ku) * si(registry time)
+            v.prove_identity(label + ".rhs_" + s, e, named + sign * k * si_value(ku) * reg_t * y[src])
+        per_rxn = odesys.cb_exprs
+        v.prove(label + ".one_rate_per_reaction", len(per_rxn) == 4)
+        if len(per_rxn) == 4:
+            v.prove_identity(label + ".rate_0", per_rxn[0], r[0])
+            v.prove_identity(label + ".rate_1", per_rxn[1], k2 * si_value(ku) * reg_t * y["B"])
+            v.prove_identity(label + ".rate_2", per_rxn[2], r[2])
+            v.prove_identity(label + ".rate_3", per_rxn[3], k3 * si_value(ku) * reg_t * y["D"])
